@@ -44,7 +44,14 @@ impl Attr for VariantAttr {
     }
 
     fn assert_validity(&self, item: &Self::Item) -> Result<()> {
-        if self.type_as.is_some() {
+        if let Some(type_as) = &self.type_as {
+            if crate::utils::mentions_infer(type_as) {
+                syn_err_spanned!(
+                    item;
+                    "`_` stands for the type of the field an `as` is written on: it cannot be used in the `as` of a variant"
+                )
+            }
+
             if self.type_override.is_some() {
                 syn_err_spanned!(
                     item;
